@@ -22,8 +22,27 @@ fn arg_value(args: &[String], name: &str) -> Option<String> {
         .and_then(|i| args.get(i + 1).cloned())
 }
 
+struct StderrLogger;
+
+impl log::Log for StderrLogger {
+    fn enabled(&self, _metadata: &log::Metadata) -> bool {
+        true
+    }
+    fn log(&self, record: &log::Record) {
+        eprintln!("[{} {}] {}", record.level(), record.target(), record.args());
+    }
+    fn flush(&self) {}
+}
+
+static LOGGER: StderrLogger = StderrLogger;
+
 fn main() {
     sim::panic::install_hook();
+    // debugging aid: HQSIM_LOG=debug prints the log messages of the code under test
+    if let Ok(level) = std::env::var("HQSIM_LOG") {
+        let _ = log::set_logger(&LOGGER);
+        log::set_max_level(level.parse().unwrap_or(log::LevelFilter::Debug));
+    }
     if std::env::var("HQSIM_LOUD").is_ok() {
         sim::panic::set_quiet(false);
     }
